@@ -336,6 +336,11 @@ def check_validation(case):
         got = True
     except ControlError:
         got = False
+    except Exception as exc:
+        # "any input is refused or accepted cleanly": an exception other than the control's own refusal is a finding
+        from ..common import crash_violation
+
+        raise crash_violation(exc, case, "crash") from exc
     if got != exp:
         raise Violation(
             "validation.%s" % ("accepted-invalid" if got else "refused-valid"), (case["ladder"], case["type"], reason),
@@ -394,7 +399,9 @@ def sub_validation_enum(col, budget, seed, tier, shard, nshards):
                               "client": "sim", "currency": "GBP", "mbv": True, "line": list(line)})
             k += 0.5 if iv == 0.5 else 1.0
     # (2) sizes / liabilities around thresholds for every currency
-    probe_prices = [1.01, 1.5, 2.0, 3.0, 5.0, 10.0, 11.0, 20.0, 50.0, 100.0, 1000.0]
+    # (prices at which payout / price is not a whole number of cents, rounding down as well as up, are included: the
+    #  smallest valid stake there is the quotient rounded UP)
+    probe_prices = [1.01, 1.5, 2.0, 3.0, 5.0, 10.0, 11.0, 12.0, 13.0, 20.0, 30.0, 50.0, 70.0, 100.0, 980.0, 1000.0]
     for cur in curs:
         c = env["currencies"][cur]
         for mbv in (True, False):
